@@ -290,6 +290,11 @@ func (W) Gen(prop string, seed uint64, tier string) *world.Plan {
 			tail = append(tail, world.Op{K: "scall", F: 0, W: r.U64()})
 		}
 		tasks = append(tasks, world.Task{Role: "after", Ops: tail})
+		if r.Chance(200) {
+			// logging fixed before configuration: every call then passes through goom's debug wrapper,
+			// inside which callers can be parked (console seam) while others call the same stub
+			p.Knobs["logcfg"] = 1 + r.Intn(2)
+		}
 	}
 	if len(tasks) == 1 && maxLen > 1 && r.Chance(350) {
 		p.Knobs["dups"] = 1
@@ -573,6 +578,18 @@ func (W) Exec(p *world.Plan, env *world.Env) {
 	if nDef > 1 {
 		env.Res.Verdict = "invalid"
 		return
+	}
+	if lc := p.Knobs["logcfg"]; lc > 0 {
+		if lc == 1 {
+			mocker.OpenDebug()
+		} else {
+			mocker.OpenTrace()
+		}
+		defer func() {
+			mocker.CloseTrace()
+			mocker.CloseDebug()
+		}()
+		env.Probe("stub_world_with_logging_on")
 	}
 	defer func() {
 		// always leave the process clean for the next plan
